@@ -3,7 +3,7 @@
    statements as Definitions where only a part is proved, and non-vacuity Examples.
    Model: C14/Model.v (tied to /repo/systems/pbkvs/pbkvs.go by the correspondence check, ./check C14). *)
 From Coq Require Import List String.
-From PGV Require Import C14.Model C14.Corr C14.Witness C14.Proofs C14.ProofsFF C14.ProofsLin C14.ProofsCrashC C14.ProofsLinFF.
+From PGV Require Import C14.Model C14.Corr C14.Witness C14.Proofs C14.ProofsFF C14.ProofsLin C14.ProofsCrashC C14.ProofsLinFF C14.ProofsAssertFF.
 Import ListNotations.
 
 (* ---------------------------------------------------------------- full statements *)
@@ -60,6 +60,15 @@ Theorem pb_linearizable_failure_free_partial : forall cfg input evs s,
   exec cfg (init cfg input) evs = Some s -> linearizable (hist s).
 Proof. exact linearizable_failure_free_lemma. Qed.
 Print Assumptions pb_linearizable_failure_free_partial.
+
+(* assertion-freedom when no replica crashes: in every state of every execution without a crash, no enabled
+   step of any process fails an assertion or a TLA+ evaluation (any numbers of replicas, clients, keys, operations).
+   The full statement is refuted below (assertion_free_refuted). *)
+Theorem assertion_free_failure_free_partial : forall cfg input evs s e,
+  explore_fail cfg = false -> 1 <= NR cfg -> Forall input_ok input ->
+  exec cfg (init cfg input) evs = Some s -> step cfg s e <> AssertFail /\ step cfg s e <> TypeErr.
+Proof. exact assertion_free_failure_free_lemma. Qed.
+Print Assumptions assertion_free_failure_free_partial.
 
 (* the checker used on both sides of the tie is complete: a history it rejects is not linearizable *)
 Theorem lin_checker_complete : forall h, linearizable h -> linearizable_b h = true.
